@@ -12,6 +12,15 @@ def claim(i, ref, text, note, tech):
 
 exec(open(os.path.join(root, 'tools', 'claims.py')).read())
 
+for _i, _cls in ERRFLOW_CLASSES.items():
+    if _i in CLAIMED:
+        r_, t_, n_, k_ = CLAIMED[_i]
+        CLAIMED[_i] = (r_, t_ + " " + (ERRFLOW % _cls), n_, k_ + ", frozen error-disposition table (def-use chains + CFG reachability per error-returning call)")
+for _i, _x in EXTRA.items():
+    if _i in CLAIMED:
+        r_, t_, n_, k_ = CLAIMED[_i]
+        CLAIMED[_i] = (r_, t_ + " " + _x, n_, k_)
+
 NA_DEFAULT = "rule set not armed yet in this build; will be claimed at level other once it is exact on the pinned tree (see DESIGN.md section 5)"
 NA = {}
 if os.path.exists(os.path.join(root, 'tools', 'na.json')):
